@@ -52,11 +52,9 @@ def dispatchOrder : List String :=
   ["update_current_timestep", "_set_next_execution_timestep", "_tap_outcome_handler",
    "_payload", "_c2c", "_propagate", "_activate", "_install", "_download", "_tap_start"]
 
-inductive HostRef | start | c2server
-deriving DecidableEq, Repr
-
-/-- `network_knowledge["next_scan_target"]`: a configured network address, the previous live-host list, or the target. -/
-inductive Target | addr (i : Nat) | hosts | target
+/-- `network_knowledge["next_scan_target"]`: entry `i` of the configured `network_addresses` (with its value), the
+live-host list the previous ping scan returned (simulator data), or the target address. -/
+inductive Target | addr (i : Nat) (v : Val) | hosts | target
 deriving DecidableEq, Repr
 
 inductive Kind
@@ -64,10 +62,12 @@ inductive Kind
   | ransomwareConfigure | exfiltrate | ransomwareLaunch | pingScan | portScan | reconScan
 deriving DecidableEq, Repr
 
-/-- A CAOS action as far as the property needs it: name, the node it runs on, scan target. -/
+/-- A CAOS action: its kind (action name + the constants of the source), the node it runs on (`node_name` /
+`source_node` = `current_host` at the time `chosen_action` was assigned) and the scan target.  The remaining parameters
+are functions of the configuration and of the kind (`Act.render` below). -/
 structure Act where
   kind : Kind
-  host : HostRef := .start
+  node : Val := ""
   tgt : Option Target := none
 deriving DecidableEq, Repr
 
@@ -104,11 +104,31 @@ structure Cfg where
   pPayload : Prob
   scanAttempts : Nat
   repeatScan : Bool
-  nAddr : Nat
   exfiltrate : Bool
   corrupt : Bool
   continueOnFailedExfil : Bool
+  /-- `starting_nodes`, `default_starting_node`, `target_ips`, `default_target_ip` -/
+  startingNodes : List Val := []
+  defaultStartingNode : Val := ""
+  targetIps : List Val := []
+  defaultTargetIp : Val := ""
+  /-- `PROPAGATE.network_addresses` -/
+  addrs : List Val
+  /-- `COMMAND_AND_CONTROL`: c2_server_name, c2_server_ip, keep_alive_frequency, masquerade_port, masquerade_protocol
+  (the last three as the validated values the settings schema stores) -/
+  c2Server : Val := ""
+  c2Ip : Val := ""
+  keepAlive : Val := ""
+  masqPort : Val := ""
+  masqProto : Val := ""
+  /-- `PAYLOAD`: exfiltration_folder_name, target_username, target_password -/
+  exfilFolder : Val := ""
+  targetUser : Val := ""
+  targetPass : Val := ""
 deriving Repr
+
+/-- `len(PROPAGATE.network_addresses)` -/
+def Cfg.nAddr (c : Cfg) : Nat := c.addrs.length
 
 structure In where
   d1 : Int          -- first `randint(-variance, variance)` of the step
@@ -127,7 +147,10 @@ structure St where
   curT : Int := 0
   chosen : Act := Act.nothing
   hist : List Hist := []
-  host : HostRef := .start
+  /-- `starting_node`, `target_ip`: selected once in `setup_agent`; `current_host` -/
+  startNode : Val := ""
+  targetIp : Val := ""
+  host : Val := ""
   lastScanTs : List Int := []
   lastScanType : ScanType := .none
   scansComplete : Nat := 0
@@ -135,7 +158,7 @@ structure St where
   targetFound : Bool := false
   targetPort : PortStatus := .unknown
   liveHostsEmpty : Bool := false      -- `network_knowledge["live_hosts"] == []` (initially `{}`)
-  nextTarget : Target := .addr 0
+  nextTarget : Target := .addr 0 ""
   beaconConfigured : Bool := false
   exfiltrate : Bool
   corrupt : Bool
@@ -145,10 +168,17 @@ deriving Repr
 
 def St.raise (s : St) : St := { s with err := true }
 
-/-- `setup_agent` (draw `d0` for the first schedule). `none` = construction raises. -/
-def init (c : Cfg) (d0 : Int) : Option St :=
-  if randintOk c.variance ∧ 0 < c.nAddr then
-    some { nextExec := c.startStep + d0, exfiltrate := c.exfiltrate, corrupt := c.corrupt }
+/-- `setup_agent`: `_select_start_node` (index `k1`), `_select_target_ip` (index `k2`), draw `d0` for the first
+schedule, `network_knowledge["next_scan_target"] = network_addresses[0]`.  `none` = construction raises.  (The guards
+make the three `getD` / `headD` defaults unreachable: `init_picks` in Props/C19Params.lean.) -/
+def init (c : Cfg) (d0 : Int) (k1 k2 : Nat) : Option St :=
+  if randintOk c.variance ∧ 0 < c.nAddr ∧ (pick c.startingNodes c.defaultStartingNode k1).isSome ∧
+      (pick c.targetIps c.defaultTargetIp k2).isSome then
+    some { nextExec := c.startStep + d0, exfiltrate := c.exfiltrate, corrupt := c.corrupt,
+           startNode := (pick c.startingNodes c.defaultStartingNode k1).getD "",
+           targetIp := (pick c.targetIps c.defaultTargetIp k2).getD "",
+           host := (pick c.startingNodes c.defaultStartingNode k1).getD "",
+           nextTarget := .addr 0 (c.addrs.headD "") }
   else none
 
 /-- `_set_next_execution_timestep(base)` with draw `d`. -/
@@ -168,11 +198,11 @@ def progress (s : St) : St :=
     | some n => { s with cur := s.nxt, nxt := n, prog := .pending }
     | none => s.raise
 
-/-- `_tap_outcome_handler`. -/
+/-- `_tap_outcome_handler` (a re-attack resets the stage progress: repair of F-C19-4). -/
 def outcomeHandler (c : Cfg) (s : St) : St :=
   if s.cur = .succeeded ∨ s.cur = .failed then
     if s.concluded then { s with chosen := Act.nothing }
-    else if c.repeatKillChain then { s with cur := .notStarted, nxt := .download, chosen := Act.nothing }
+    else if c.repeatKillChain then { s with cur := .notStarted, nxt := .download, prog := .pending, chosen := Act.nothing }
     else { s with concluded := true, chosen := Act.nothing }
   else s
 
@@ -183,10 +213,10 @@ def failStage (c : Cfg) (s : St) : St :=
 /-- `_payload_handler`: new state and the returned progress. -/
 def payloadHandler (s : St) : St × Progress :=
   if s.exfiltrate then
-    ({ s with chosen := { kind := .exfiltrate, host := s.host }, exfiltrate := false },
+    ({ s with chosen := { kind := .exfiltrate, node := s.host }, exfiltrate := false },
      if s.corrupt then .inProgress else .finished)
   else if s.corrupt then
-    ({ s with chosen := { kind := .ransomwareLaunch, host := s.host }, corrupt := false }, .finished)
+    ({ s with chosen := { kind := .ransomwareLaunch, node := s.host }, corrupt := false }, .finished)
   else (s, .finished)
 
 /-- `if self.current_stage_progress == FINISHED: self._progress_kill_chain()`. -/
@@ -200,7 +230,7 @@ def payloadContinue (s : St) : St :=
 def payloadEnter (c : Cfg) (i : In) (s : St) : St :=
   if s.prog = .pending then
     if trial c.pPayload i.u then
-      { s with host := .c2server, chosen := { kind := .ransomwareConfigure, host := .c2server, tgt := some .target },
+      { s with host := c.c2Server, chosen := { kind := .ransomwareConfigure, node := c.c2Server, tgt := some .target },
                prog := .inProgress }
     else failStage c { s with chosen := Act.nothing }
   else s
@@ -214,24 +244,26 @@ def c2c (c : Cfg) (i : In) (s : St) : St :=
   if s.cur ≠ .c2 then s else
   if s.prog = .pending then
     if trial c.pC2 i.u then
-      { s with chosen := { kind := .installC2, host := s.host }, prog := .inProgress }
+      { s with chosen := { kind := .installC2, node := s.host }, prog := .inProgress }
     else failStage c { s with chosen := Act.nothing }
   else if s.prog = .inProgress then
     if ¬ s.beaconConfigured then
-      { s with chosen := { kind := .configureC2, host := s.host }, beaconConfigured := true }
-    else progress { s with chosen := { kind := .executeC2, host := s.host } }
+      { s with chosen := { kind := .configureC2, node := s.host }, beaconConfigured := true }
+    else progress { s with chosen := { kind := .executeC2, node := s.host } }
   else s
 
 /-- `_update_next_scan_target(scan_target)`; `empty` = `scan_target == []`. -/
 def updateNextScanTarget (c : Cfg) (i : In) (empty : Bool) (s : St) : St :=
   if s.lastScanType = .recon ∨ empty then
-    if s.networksScanned + 1 < c.nAddr then
-      { s with networksScanned := s.networksScanned + 1, nextTarget := .addr (s.networksScanned + 1) }
-    else if s.targetFound then { s with networksScanned := s.networksScanned + 1 }
-    else if c.repeatScan then
-      if i.dScan < c.nAddr then { s with networksScanned := 0, nextTarget := .addr i.dScan }
-      else { s with networksScanned := s.networksScanned + 1, err := true }
-    else { s with networksScanned := s.networksScanned + 1 }
+    match c.addrs[s.networksScanned + 1]? with            -- `try: network_addresses[networks_scanned]`
+    | some a => { s with networksScanned := s.networksScanned + 1, nextTarget := .addr (s.networksScanned + 1) a }
+    | none =>                                             -- `except IndexError:`
+      if s.targetFound then { s with networksScanned := s.networksScanned + 1 }
+      else if c.repeatScan then
+        match c.addrs[i.dScan]? with
+        | some a => { s with networksScanned := 0, nextTarget := .addr i.dScan a }
+        | none => { s with networksScanned := s.networksScanned + 1, err := true }
+      else { s with networksScanned := s.networksScanned + 1 }
   else if s.lastScanType = .ping then { s with nextTarget := .hosts }
   else s
 
@@ -256,10 +288,10 @@ def scanLogic (s : St) : St × ScanType :=
 /-- `_scan_action_handler(scan_type)`. -/
 def scanAction (ty : ScanType) (s : St) : St :=
   match ty with
-  | .ping => { s with chosen := { kind := .pingScan, host := s.host, tgt := some s.nextTarget }, lastScanType := ty }
-  | .port => { s with nextTarget := .target, chosen := { kind := .portScan, host := s.host, tgt := some .target },
+  | .ping => { s with chosen := { kind := .pingScan, node := s.host, tgt := some s.nextTarget }, lastScanType := ty }
+  | .port => { s with nextTarget := .target, chosen := { kind := .portScan, node := s.host, tgt := some .target },
                       lastScanType := ty }
-  | .recon => { s with chosen := { kind := .reconScan, host := s.host, tgt := some s.nextTarget }, lastScanType := ty }
+  | .recon => { s with chosen := { kind := .reconScan, node := s.host, tgt := some s.nextTarget }, lastScanType := ty }
   | _ => { s with cur := .failed, chosen := Act.nothing, lastScanType := ty }
 
 /-- `_scan_progress_handler`. -/
@@ -288,42 +320,45 @@ def scanHandler (c : Cfg) (i : In) (s : St) : St × Progress :=
     | some prev =>
       scanDecide c (scanAbsorb c i prev (scanMark prev { s with lastScanTs := s.lastScanTs.dropLast ++ [s.curT] }))
 
-/-- `_propagate_reset`. -/
-def propagateReset (s : St) : St :=
-  { s with lastScanTs := [], lastScanType := .none, scansComplete := 0, networksScanned := 0,
-           targetFound := false, targetPort := .unknown, liveHostsEmpty := false, nextTarget := .addr 0 }
+/-- `_propagate_reset` (`network_addresses[0]` exists: the constructor read it). -/
+def propagateReset (c : Cfg) (s : St) : St :=
+  match c.addrs[0]? with
+  | some a =>
+    { s with lastScanTs := [], lastScanType := .none, scansComplete := 0, networksScanned := 0,
+             targetFound := false, targetPort := .unknown, liveHostsEmpty := false, nextTarget := .addr 0 a }
+  | none => s.raise
 
 /-- `_propagate`. -/
-def propagatePrep (s : St) : St :=
-  if s.prog = .pending then propagateReset { s with host := .start } else s
+def propagatePrep (c : Cfg) (s : St) : St :=
+  if s.prog = .pending then propagateReset c { s with host := s.startNode } else s
 
 def propagateFirstScan (s : St) : St :=
-  { s with chosen := { kind := .pingScan, host := s.host, tgt := some s.nextTarget },
+  { s with chosen := { kind := .pingScan, node := s.host, tgt := some s.nextTarget },
            scansComplete := 1, lastScanTs := s.lastScanTs ++ [s.curT], lastScanType := .ping, prog := .inProgress }
 
 def propagate (c : Cfg) (i : In) (s : St) : St :=
   if s.cur ≠ .propagate then s else
   if s.prog = .inProgress then
     progressIfFinished { (scanHandler c i s).1 with prog := (scanHandler c i s).2 }
-  else if trial c.pPropagate i.u then propagateFirstScan (propagatePrep s)
+  else if trial c.pPropagate i.u then propagateFirstScan (propagatePrep c s)
   else failStage c { s with chosen := Act.nothing }
 
 /-- `_activate`. -/
 def activate (s : St) : St :=
   if s.cur ≠ .activate then s else
-  progress { s with host := .start, prog := .finished, chosen := { kind := .installRansomware, host := .start } }
+  progress { s with host := s.startNode, prog := .finished, chosen := { kind := .installRansomware, node := s.startNode } }
 
 /-- `_install`. -/
 def install (s : St) : St :=
   if s.cur ≠ .install then s else
-  progress { s with host := .start, chosen := { kind := .fileAccess, host := .start } }
+  progress { s with host := s.startNode, chosen := { kind := .fileAccess, node := s.startNode } }
 
 /-- `_download`. -/
 def downloadAct (s : St) : St :=
   if s.prog = .pending then
-    { s with host := .start, chosen := { kind := .folderCreate, host := .start }, prog := .inProgress }
+    { s with host := s.startNode, chosen := { kind := .folderCreate, node := s.startNode }, prog := .inProgress }
   else if s.prog = .inProgress then
-    { s with chosen := { kind := .fileCreate, host := s.host }, prog := .finished }
+    { s with chosen := { kind := .fileCreate, node := s.host }, prog := .finished }
   else s
 
 def download (s : St) : St :=
@@ -386,6 +421,89 @@ def step (c : Cfg) (s : St) (t : Int) (i : In) : St × Out :=
             hist := (getAction c s t i).1.hist ++ [{ kind := (getAction c s t i).2.kind, resp := i.resp }] },
         .act (getAction c s t i).2)
 
+/-! ### The parameters of an emitted action -/
+
+/-- A parameter value: a string of the configuration (or a constant of the source), the live-host list of the previous
+ping scan (simulator data, opaque), or a boolean constant. -/
+inductive PVal | str (v : Val) | hosts | bool (b : Bool)
+deriving DecidableEq, Repr
+
+/-- One parameter: its key, the source expression it is built from in TAP001.py (pinned against the extractor by
+`C19_gen_action_params`), and its value in the model. -/
+abbrev ParamSpec := String × String × (Cfg → St → Act → PVal)
+
+def pNode : Cfg → St → Act → PVal := fun _ _ a => .str a.node
+/-- scan target: a configured network address, the live hosts, or the selected target address -/
+def pTgt : Cfg → St → Act → PVal := fun _ s a =>
+  match a.tgt with
+  | some (.addr _ v) => .str v
+  | some .hosts => .hosts
+  | some .target => .str s.targetIp
+  | none => .str ""
+def pTargetIp : Cfg → St → Act → PVal := fun _ s _ => .str s.targetIp
+def pConst (v : Val) : Cfg → St → Act → PVal := fun _ _ _ => .str v
+def pBool (b : Bool) : Cfg → St → Act → PVal := fun _ _ _ => .bool b
+def pCfg (f : Cfg → Val) : Cfg → St → Act → PVal := fun c _ _ => .str (f c)
+
+def Kind.name : Kind → String
+  | .doNothing => "do-nothing" | .folderCreate => "node-folder-create" | .fileCreate => "node-file-create"
+  | .fileAccess => "node-file-access" | .installRansomware => "node-application-install"
+  | .installC2 => "node-application-install" | .configureC2 => "configure-c2-beacon"
+  | .executeC2 => "node-application-execute" | .ransomwareConfigure => "c2-server-ransomware-configure"
+  | .exfiltrate => "c2-server-data-exfiltrate" | .ransomwareLaunch => "c2-server-ransomware-launch"
+  | .pingScan => "node-nmap-ping-scan" | .portScan => "node-nmap-port-scan" | .reconScan => "node-network-service-recon"
+
+/-- `self.chosen_application` where the action is assigned (`_activate`: 'ransomware-script', `_c2c`: 'c2-beacon'). -/
+def Kind.app : Kind → Val
+  | .installRansomware => "ransomware-script" | .installC2 => "c2-beacon" | .executeC2 => "c2-beacon" | _ => ""
+
+/-- Every parameter of every action TAP001 can return. -/
+def Kind.spec : Kind → List ParamSpec
+  | .doNothing => []
+  | .folderCreate => [("node_name", "self.current_host", pNode), ("folder_name", "'downloads'", pConst "downloads")]
+  | .fileCreate => [("node_name", "self.current_host", pNode), ("folder_name", "'downloads'", pConst "downloads"),
+      ("file_name", "'malware_dropper.ps1'", pConst "malware_dropper.ps1"), ("force", "True", pBool true)]
+  | .fileAccess => [("node_name", "self.current_host", pNode), ("folder_name", "'downloads'", pConst "downloads"),
+      ("file_name", "'malware_dropper.ps1'", pConst "malware_dropper.ps1")]
+  | .installRansomware => [("node_name", "self.current_host", pNode),
+      ("application_name", "self.chosen_application", pConst (Kind.app .installRansomware))]
+  | .installC2 => [("node_name", "self.current_host", pNode),
+      ("application_name", "self.chosen_application", pConst (Kind.app .installC2))]
+  | .configureC2 => [("node_name", "self.current_host", pNode),
+      ("c2_server_ip_address", "self.c2_settings.get('c2_server_ip_address')", pCfg (·.c2Ip)),
+      ("keep_alive_frequency", "self.c2_settings.get('keep_alive_frequency')", pCfg (·.keepAlive)),
+      ("masquerade_port", "self.c2_settings.get('masquerade_port')", pCfg (·.masqPort)),
+      ("masquerade_protocol", "self.c2_settings.get('masquerade_protocol')", pCfg (·.masqProto))]
+  | .executeC2 => [("node_name", "self.current_host", pNode),
+      ("application_name", "self.chosen_application", pConst (Kind.app .executeC2))]
+  | .ransomwareConfigure => [("node_name", "self.current_host", pNode), ("server_ip_address", "self.target_ip", pTargetIp),
+      ("payload", "'ENCRYPT'", pConst "ENCRYPT")]
+  | .exfiltrate => [("node_name", "self.current_host", pNode),
+      ("target_file_name", "self.payload_settings.get('target_file_name')", pConst "database.db"),
+      ("target_folder_name", "self.payload_settings.get('target_folder_name')", pConst "database"),
+      ("exfiltration_folder_name", "self.payload_settings.get('exfiltration_folder_name')", pCfg (·.exfilFolder)),
+      ("target_ip_address", "self.payload_settings.get('target_ip_address')", pTargetIp),
+      ("username", "self.payload_settings.get('target_username')", pCfg (·.targetUser)),
+      ("password", "self.payload_settings.get('target_password')", pCfg (·.targetPass))]
+  | .ransomwareLaunch => [("node_name", "self.current_host", pNode)]
+  | .pingScan => [("source_node", "self.current_host", pNode),
+      ("target_ip_address", "self.network_knowledge.get('next_scan_target')", pTgt), ("show", "False", pBool false)]
+  | .portScan => [("source_node", "self.current_host", pNode),
+      ("target_ip_address", "self.network_knowledge.get('target_ip')", pTgt), ("show", "False", pBool false)]
+  | .reconScan => [("source_node", "self.current_host", pNode),
+      ("target_ip_address", "self.network_knowledge.get('next_scan_target')", pTgt),
+      ("target_port", "PORT_LOOKUP['POSTGRES_SERVER']", pConst "PORT_LOOKUP[POSTGRES_SERVER]"),
+      ("target_protocol", "PROTOCOL_LOOKUP['TCP']", pConst "PROTOCOL_LOOKUP[TCP]"), ("show", "False", pBool false)]
+
+/-- The CAOS action the agent returns: name and parameter dictionary (in the order of the source). -/
+def Act.render (c : Cfg) (s : St) (a : Act) : String × List (String × PVal) :=
+  (a.kind.name, a.kind.spec.map fun p => (p.1, p.2.2 c s a))
+
+/-- The kinds in the order their `self.chosen_action = …` assignments appear in TAP001.py. -/
+def sourceOrder : List Kind :=
+  [.folderCreate, .fileCreate, .fileAccess, .installRansomware, .pingScan, .installC2, .configureC2, .executeC2,
+   .ransomwareConfigure, .exfiltrate, .ransomwareLaunch, .pingScan, .portScan, .reconScan]
+
 end Tap1
 
 /-! ## TAP003 — InsiderKillChain -/
@@ -422,10 +540,19 @@ def dispatchOrder : List String :=
 inductive Kind | doNothing | changePwLocal | remoteLogin | remoteChangePw | remoteAcl
 deriving DecidableEq, Repr
 
-/-- Action name plus the host it concerns (hosts are numbered; the rig maps names to numbers). -/
+/-- A CAOS action with the parameters that vary: `node_name`, `remote_ip`, user name, (current) password, new password,
+and for an ACL command the nine fields after `add_rule` (permission, protocol_name, src_ip, src_wildcard, src_port,
+dst_ip, dst_wildcard, dst_port, position).  `host` is the host name the action concerns (bookkeeping of the model: the
+Python action carries only its address). -/
 structure Act where
   kind : Kind
-  host : Nat := 0
+  host : Val := ""
+  node : Val := ""
+  ip : Val := ""
+  user : Val := ""
+  pw : Val := ""
+  newPw : Val := ""
+  acl : List Val := []
 deriving DecidableEq, Repr
 
 def Act.nothing : Act := { kind := .doNothing }
@@ -436,17 +563,42 @@ structure Resp where
   hasLoginData : Bool := true   -- `response.data["ip_address"]`, `["username"]` present
 deriving DecidableEq, Repr
 
+/-- A history item: the action the agent returned (its parameters are read back by
+`_handle_change_password_response`) and what the simulator answered. -/
 structure Hist where
-  kind : Kind
+  act : Act
   resp : Resp
 deriving Repr
 
-/-- `network_knowledge["credentials"]`: host ↦ (has an `ip_address` entry). -/
-abbrev Creds := List (Nat × Bool)
+def Hist.kind (h : Hist) : Kind := h.act.kind
 
-def Creds.get (cr : Creds) (h : Nat) : Option Bool := (cr.find? (·.1 == h)).map (·.2)
-def Creds.set (cr : Creds) (h : Nat) (ip : Bool) : Creds :=
-  if (cr.get h).isSome then cr.map (fun e => if e.1 == h then (h, ip) else e) else cr ++ [(h, ip)]
+/-- One entry of `network_knowledge["credentials"]`: `username`, `password`, and `ip_address` when present. -/
+structure Cred where
+  user : Val
+  pw : Val
+  ip : Option Val := none
+deriving DecidableEq, Repr
+
+/-- `network_knowledge["credentials"]`: host name ↦ credentials (a Python dict: insertion-ordered, keys distinct). -/
+abbrev Creds := List (Val × Cred)
+
+def Creds.get (cr : Creds) (h : Val) : Option Cred := (cr.find? (·.1 == h)).map (·.2)
+/-- `d[h] = v` -/
+def Creds.set (cr : Creds) (h : Val) (v : Cred) : Creds :=
+  if (cr.get h).isSome then cr.map (fun e => if e.1 == h then (h, v) else e) else cr ++ [(h, v)]
+
+/-- One entry of `MANIPULATION.account_changes`. -/
+structure AcctChange where
+  host : Val
+  user : Val
+  newPw : Val
+deriving DecidableEq, Repr
+
+/-- One entry of `EXPLOIT.malicious_acls`: `target_router` and the nine rule fields in command order. -/
+structure Acl where
+  router : Val
+  fields : List Val
+deriving DecidableEq, Repr
 
 structure Cfg where
   startStep : Int
@@ -458,10 +610,11 @@ structure Cfg where
   pAccess : Prob
   pManipulation : Prob
   pExploit : Prob
-  startNode : Nat
-  accountChanges : List Nat     -- `host` of each entry of MANIPULATION.account_changes
-  acls : List Nat               -- `target_router` of each entry of EXPLOIT.malicious_acls
-  creds0 : Creds                -- PLANNING.starting_network_knowledge["credentials"]
+  startingNodes : List Val := []
+  defaultStartingNode : Val := ""
+  accountChanges : List AcctChange   -- MANIPULATION.account_changes
+  acls : List Acl                    -- EXPLOIT.malicious_acls
+  creds0 : Creds                     -- PLANNING.starting_network_knowledge["credentials"]
 deriving Repr
 
 structure In where
@@ -479,11 +632,12 @@ structure St where
   curT : Int := 0
   chosen : Act := Act.nothing
   hist : List Hist := []
-  acctQueue : List Nat           -- the config list itself (`pop(0)` mutates it; never refilled)
-  nextAcct : Option Nat := none  -- `_next_account_change`
-  session : Option Nat := none   -- `network_knowledge["current_session"]["hostname"]`
-  sshTarget : Option Nat := none
-  chgPwTarget : Option Nat := none
+  startNode : Val := ""          -- `starting_node`, selected once in `setup_agent`
+  acctQueue : List AcctChange    -- the config list itself (`pop(0)` mutates it; never refilled)
+  nextAcct : Option AcctChange := none  -- `_next_account_change`
+  session : Option Val := none   -- `network_knowledge["current_session"]["hostname"]`
+  sshTarget : Option Val := none
+  chgPwTarget : Option Val := none
   curAcl : Nat := 0
   numAcls : Nat
   creds : Creds := []
@@ -494,9 +648,11 @@ deriving Repr
 
 def St.raise (s : St) : St := { s with err := true }
 
-def init (c : Cfg) (d0 : Int) : Option St :=
-  if randintOk c.variance then
-    some { nextExec := c.startStep + d0, acctQueue := c.accountChanges, numAcls := c.acls.length }
+/-- `__init__` / `setup_agent`: `_select_start_node` (index `k`), first schedule draw `d0`. -/
+def init (c : Cfg) (d0 : Int) (k : Nat) : Option St :=
+  if randintOk c.variance ∧ (pick c.startingNodes c.defaultStartingNode k).isSome then
+    some { nextExec := c.startStep + d0, acctQueue := c.accountChanges, numAcls := c.acls.length,
+           startNode := (pick c.startingNodes c.defaultStartingNode k).getD "" }
   else none
 
 def setNext (c : Cfg) (s : St) (base d : Int) : St :=
@@ -518,7 +674,7 @@ def progress (s : St) : St :=
 def outcomeHandler (c : Cfg) (s : St) : St :=
   if s.cur = .succeeded ∨ s.cur = .failed then
     if s.concluded then { s with chosen := Act.nothing }
-    else if c.repeatKillChain then { s with cur := .notStarted, nxt := .reconnaissance, chosen := Act.nothing }
+    else if c.repeatKillChain then { s with cur := .notStarted, nxt := .reconnaissance, prog := .pending, chosen := Act.nothing }
     else { s with concluded := true, chosen := Act.nothing }
   else s
 
@@ -534,8 +690,10 @@ def handleLogin (s : St) : St :=
       if h.resp.hasLoginData then { s with session := s.sshTarget } else s.raise
     else s
 
-/-- `_handle_change_password_response`. -/
-def handleChangePw (c : Cfg) (s : St) : St :=
+/-- `_handle_change_password_response`: the new credentials are read back from the parameters of the last history
+item (remote: `remote_ip`, `command[3]`, `command[5]` under `_change_password_target_host`; local: `request[6]`,
+`request[8]` under `request[2]` = the `node_name` of the action, without an `ip_address`). -/
+def handleChangePw (_c : Cfg) (s : St) : St :=
   match s.hist.getLast? with
   | none => s
   | some h =>
@@ -543,13 +701,15 @@ def handleChangePw (c : Cfg) (s : St) : St :=
     | none => s
     | some tgt =>
       if h.kind = .remoteChangePw ∧ h.resp.ok then
-        { s with session := none, creds := s.creds.set tgt true, chgPwTarget := none }
+        { s with session := none, creds := s.creds.set tgt { user := h.act.user, pw := h.act.newPw, ip := some h.act.ip },
+                 chgPwTarget := none }
       else if h.kind = .changePwLocal ∧ h.resp.ok then
-        { s with session := none, creds := s.creds.set c.startNode false, chgPwTarget := none }
+        { s with session := none, creds := s.creds.set h.act.node { user := h.act.user, pw := h.act.newPw },
+                 chgPwTarget := none }
       else s
 
 /-- Pop the next account change off the queue, as both password-change branches do. -/
-def popAcct (q : List Nat) : Option Nat × List Nat :=
+def popAcct (q : List AcctChange) : Option AcctChange × List AcctChange :=
   match q with
   | [] => (none, [])
   | h :: r => (some h, r)
@@ -559,28 +719,37 @@ def manipBegin (s : St) : St := if s.prog = .pending then { s with prog := .inPr
 
 /-- The account change to work on (`_next_account_change`, else the head of the list) and the list that remains;
 `none` when there is nothing left to do. -/
-def manipPick (s : St) : Option (Nat × List Nat) :=
+def manipPick (s : St) : Option (AcctChange × List AcctChange) :=
   match s.nextAcct, s.acctQueue with
   | some h, q => some (h, q)
   | none, h :: r => some (h, r)
   | none, [] => none
 
-/-- One password-change action (local, or remote login first, or remote command). -/
-def manipAct (c : Cfg) (s : St) : St :=
+/-- One password-change action (local, or remote login first, or remote command).  `KeyError` (`raise`) when the
+credentials of the host — or, for a remote host, their `ip_address` — are not known. -/
+def manipAct (_c : Cfg) (s : St) : St :=
   match manipPick s with
   | none => s
-  | some (h, q1) =>
-    if h = c.startNode then
-      if (s.creds.get c.startNode).isNone then s.raise else
-      { s with chosen := { kind := .changePwLocal, host := c.startNode }, nextAcct := (popAcct q1).1, acctQueue := (popAcct q1).2,
-               chgPwTarget := some c.startNode }
-    else if s.session ≠ some h then
-      if s.creds.get h ≠ some true then s.raise else
-      { s with sshTarget := some h, chosen := { kind := .remoteLogin, host := h }, nextAcct := some h, acctQueue := q1 }
+  | some (a, q1) =>
+    if a.host = s.startNode then
+      match s.creds.get s.startNode with
+      | none => s.raise
+      | some cr =>
+        { s with chosen := { kind := .changePwLocal, host := s.startNode, node := s.startNode, user := a.user, pw := cr.pw,
+                             newPw := a.newPw },
+                 nextAcct := (popAcct q1).1, acctQueue := (popAcct q1).2, chgPwTarget := some s.startNode }
     else
-      if s.creds.get h ≠ some true then s.raise else
-      { s with chosen := { kind := .remoteChangePw, host := h }, nextAcct := (popAcct q1).1, acctQueue := (popAcct q1).2,
-               chgPwTarget := some h }
+      match (s.creds.get a.host), (s.creds.get a.host).bind (·.ip) with
+      | some cr, some ip =>
+        if s.session ≠ some a.host then
+          { s with sshTarget := some a.host,
+                   chosen := { kind := .remoteLogin, host := a.host, node := s.startNode, user := cr.user, pw := cr.pw, ip := ip },
+                   nextAcct := some a, acctQueue := q1 }
+        else
+          { s with chosen := { kind := .remoteChangePw, host := a.host, node := s.startNode, ip := ip, user := a.user,
+                               pw := cr.pw, newPw := a.newPw },
+                   nextAcct := (popAcct q1).1, acctQueue := (popAcct q1).2, chgPwTarget := some a.host }
+      | _, _ => s.raise
 
 def manipFinish (s : St) : St := if s.nextAcct.isNone then progress s else s
 
@@ -589,10 +758,14 @@ def manipulation (c : Cfg) (i : In) (s : St) : St :=
   if trial c.pManipulation i.u then manipFinish (manipAct c (manipBegin s))
   else failStage c { s with chosen := Act.nothing }
 
-/-- one action of `_exploit`: log in to the router, or add the next malicious ACL. -/
-def exploitAct (r : Nat) (s : St) : St :=
-  if s.session ≠ some r then { s with sshTarget := some r, chosen := { kind := .remoteLogin, host := r } }
-  else { s with chosen := { kind := .remoteAcl, host := r }, curAcl := s.curAcl + 1 }
+/-- one action of `_exploit`: log in to the router (credentials `cr`, address `ip`), or add the malicious ACL `a`. -/
+def exploitAct (a : Acl) (cr : Cred) (ip : Val) (s : St) : St :=
+  if s.session ≠ some a.router then
+    { s with sshTarget := some a.router,
+             chosen := { kind := .remoteLogin, host := a.router, node := s.startNode, user := cr.user, pw := cr.pw, ip := ip } }
+  else
+    { s with chosen := { kind := .remoteAcl, host := a.router, node := s.startNode, ip := ip, acl := a.fields },
+             curAcl := s.curAcl + 1 }
 
 def exploitFinish (s : St) : St :=
   if s.curAcl = s.numAcls then progress { s with curAcl := 0 } else s
@@ -601,9 +774,10 @@ def exploitFinish (s : St) : St :=
 def exploitBody (c : Cfg) (s : St) : St :=
   match c.acls[s.curAcl]? with
   | none => s.raise
-  | some r =>
-    if s.creds.get r ≠ some true then s.raise
-    else exploitFinish (exploitAct r { s with numAcls := c.acls.length })
+  | some a =>
+    match (s.creds.get a.router), (s.creds.get a.router).bind (·.ip) with
+    | some cr, some ip => exploitFinish (exploitAct a cr ip { s with numAcls := c.acls.length })
+    | _, _ => s.raise
 
 /-- "Perform the probability of success once upon entering the stage": first half of `_exploit`. -/
 def exploitEnter (s : St) : St := if s.prog = .pending then { s with prog := .inProgress } else s
@@ -652,7 +826,7 @@ def passes (h : Hist) (s : St) : Bool := h.resp.ok || s.cur == .planning
 /-- The history item `_tap_return_handler(current_timestep)` looks at; a synthetic successful item when there is none yet
 (see `Tap1.lookBack`). -/
 def lookBack (s : St) : Option Hist :=
-  if (s.hist.length : Int) ≤ s.curT then some { kind := .doNothing, resp := { ok := true } } else pyIndex s.hist s.curT
+  if (s.hist.length : Int) ≤ s.curT then some { act := Act.nothing, resp := { ok := true } } else pyIndex s.hist s.curT
 
 def failPath (c : Cfg) (s : St) (t : Int) (i : In) : St :=
   outcomeHandler c (setNext c { s with curT := t } (t + c.frequency) i.d1)
@@ -686,8 +860,48 @@ def step (c : Cfg) (s : St) (t : Int) (i : In) : St × Out :=
   if s.dead then (s, .raised) else
   if (getAction c s t i).1.err then ({ s with dead := true }, .raised)
   else ({ (getAction c s t i).1 with
-            hist := (getAction c s t i).1.hist ++ [{ kind := (getAction c s t i).2.kind, resp := i.resp }] },
+            hist := (getAction c s t i).1.hist ++ [{ act := (getAction c s t i).2, resp := i.resp }] },
         .act (getAction c s t i).2)
+
+/-! ### The parameters of an emitted action -/
+
+/-- A parameter value: a string, or the command list of a `node-send-remote-command`. -/
+inductive PVal | str (v : Val) | list (vs : List Val)
+deriving DecidableEq, Repr
+
+/-- key, source expression in TAP003.py (pinned against the extractor by `C19_gen_action_params`), value in the model -/
+abbrev ParamSpec := String × String × (Act → PVal)
+
+def Kind.name : Kind → String
+  | .doNothing => "do-nothing" | .changePwLocal => "node-account-change-password"
+  | .remoteLogin => "node-session-remote-login" | .remoteChangePw => "node-send-remote-command"
+  | .remoteAcl => "node-send-remote-command"
+
+/-- Every parameter of every action TAP003 can return. -/
+def Kind.spec : Kind → List ParamSpec
+  | .doNothing => []
+  | .changePwLocal => [("node_name", "self.current_host", fun a => .str a.node),
+      ("username", "self._next_account_change['username']", fun a => .str a.user),
+      ("current_password", "self.network_knowledge['credentials'][self.current_host]['password']", fun a => .str a.pw),
+      ("new_password", "self._next_account_change['new_password']", fun a => .str a.newPw)]
+  | .remoteLogin => [("node_name", "self.starting_node", fun a => .str a.node),
+      ("username", "self.network_knowledge['credentials'][hostname]['username']", fun a => .str a.user),
+      ("password", "self.network_knowledge['credentials'][hostname]['password']", fun a => .str a.pw),
+      ("remote_ip", "self.network_knowledge['credentials'][hostname]['ip_address']", fun a => .str a.ip)]
+  | .remoteChangePw => [("node_name", "self.starting_node", fun a => .str a.node),
+      ("remote_ip", "self.network_knowledge['credentials'][hostname]['ip_address']", fun a => .str a.ip),
+      ("command", "['service', 'user-manager', 'change_password', self._next_account_change['username'], self.network_knowledge['credentials'][hostname]['password'], self._next_account_change['new_password']]",
+        fun a => .list ["service", "user-manager", "change_password", a.user, a.pw, a.newPw])]
+  | .remoteAcl => [("node_name", "self.starting_node", fun a => .str a.node),
+      ("remote_ip", "self.network_knowledge['credentials'][hostname]['ip_address']", fun a => .str a.ip),
+      ("command", "['acl', 'add_rule', malicious_acl.permission, malicious_acl.protocol_name, str(malicious_acl.src_ip), str(malicious_acl.src_wildcard), malicious_acl.src_port, str(malicious_acl.dst_ip), str(malicious_acl.dst_wildcard), malicious_acl.dst_port, malicious_acl.position]",
+        fun a => .list (["acl", "add_rule"] ++ a.acl))]
+
+def Act.render (a : Act) : String × List (String × PVal) := (a.kind.name, a.kind.spec.map fun p => (p.1, p.2.2 a))
+
+/-- The kinds in the order their `self.chosen_action = …` assignments appear in TAP003.py (MANIPULATION: local change,
+login, remote change; EXPLOIT: login, ACL). -/
+def sourceOrder : List Kind := [.changePwLocal, .remoteLogin, .remoteChangePw, .remoteLogin, .remoteAcl]
 
 end Tap3
 end Primaite.Agents
